@@ -151,3 +151,56 @@ func VerifC12Cancelled(tries, kind int) {
 	c.Close()
 	verifReach("end")
 }
+
+// VerifC12WriteFault (C11 and C12): the failAt-th transmission of the first call fails in the
+// socket. The call returns an error at that instant (no response), its transaction id is released,
+// and a second call with the same request on the same client follows the whole schedule again.
+func VerifC12WriteFault(tries, failAt int) {
+	k := &verifCall{conn: newVerifConn(), tries: tries, ctxAt: -1, closeAt: -1}
+	k.conn.failAt = failAt
+	k.T = int64(verifU32("T"))
+	verifAssume(k.T >= 1)
+	c, err := NewWithConn(k.conn, verifHW, WithTimeout(time.Duration(k.T)), WithRetry(tries), WithServerAddr(verifOtherDest()))
+	verifAssert(err == nil, "client-created")
+	k.c = c
+	k.req = verifRequest()
+	want := k.req.ToBytes()
+	k.dest = verifDest()
+	w := k.T
+	failOff := int64(0)
+	for i := 0; i < tries; i++ {
+		if i < failAt {
+			failOff += w
+		}
+		k.budget += w
+		w += w
+	}
+	k.start = verifNow()
+	k.resp, k.err = c.SendAndRead(newVerifCtx(), k.dest, k.req, IsMessageType(dhcpv4.MessageTypeOffer))
+	k.end = verifNow()
+	verifAssert(k.resp == nil, "no-response")
+	verifAssert(k.err != nil, "error-when-no-response")
+	verifAssert(k.end-k.start <= k.budget, "returns-within-T-times-2^tries-1")
+	if failAt < tries {
+		verifAssert(k.end-k.start == failOff, "returns-when-the-transmission-fails")
+		verifCheckScheduleFrom(k, want, 0, failAt)
+	}
+	c.pendingMu.Lock()
+	_, still := c.pending[verifXID]
+	c.pendingMu.Unlock()
+	verifAssert(!still, "transaction-id-released")
+	base := len(k.conn.log)
+	k.start = verifNow()
+	k.resp, k.err = c.SendAndRead(newVerifCtx(), k.dest, k.req, IsMessageType(dhcpv4.MessageTypeOffer))
+	k.end = verifNow()
+	verifAssert(k.resp == nil, "no-response")
+	verifAssert(k.err == ErrNoResponse, "no-response-error")
+	verifAssert(k.end-k.start == k.budget, "fails-at-T-times-2^n-1")
+	verifCheckScheduleFrom(k, want, base, tries)
+	verifObserveInt("writes", len(k.conn.log))
+	cerr := c.Close()
+	verifAssert(cerr == nil, "close-returns")
+	verifSettle()
+	verifAssert(verifGoroutines() == 0, "no-goroutine-left-after-close")
+	verifReach("end")
+}
